@@ -345,7 +345,14 @@ func genPositional(r *rng) string {
 		return s
 	}
 	step := func() string { return name() + "[" + r.pick(posPreds) + "]" + bools() }
-	switch r.intn(8) {
+	switch r.intn(11) {
+	case 8:
+		// a positional child step as an existence test inside another predicate
+		return r.pick([]string{"//*", "//a", "/*/*", "*", "//b"}) + "[" + step() + "]"
+	case 9:
+		return r.pick([]string{"//*", "//a", "*"}) + "[" + step() + "/" + name() + "]" + r.pick([]string{"", "/" + step()})
+	case 10:
+		return r.pick([]string{"//*", "*"}) + "[not(" + step() + ")]"
 	case 0:
 		return "(" + genFlatPath(r) + ")[" + r.pick([]string{"1", "2", "3", "4"}) + "]"
 	case 1:
